@@ -28,6 +28,31 @@ structure PermCfg where
   arity4 : Bool
 deriving Repr
 
+/-- Which build-time shape checks the gadget performs (one flag per repair of /repo):
+`heights` = `validate_heights_on_ladder` (native geometry gate, fixes/C08-3),
+`widths` = `check_opened_widths` (native `check_widths`, fixes/C08-2),
+`capBits` = a cap taller than the index (`cap_height > index_bits.len()`) is a build error instead
+of an arithmetic-overflow panic (fixes/C08-4, arity 2 only). `Checks.none` is the gadget before
+any of these repairs. -/
+structure Checks where
+  heights : Bool
+  widths : Bool
+  capBits : Bool
+deriving Repr, DecidableEq
+
+def Checks.none : Checks := ⟨false, false, false⟩
+def Checks.all : Checks := ⟨true, true, true⟩
+
+/-- The gadget's copy of the native geometry gate. -/
+def heightsOk (dims : List Dim) : Bool :=
+  match validateHeights (dims.map (·.height)) with
+  | .ok _ => true
+  | .error _ => false
+
+/-- The gadget's copy of the native width check (`streams` in the inner view). -/
+def widthsOk {K : Type} (dims : List Dim) (streams : List (List K)) : Bool :=
+  (dims.zip streams).all (fun x => x.2.length == x.1.width)
+
 inductive CVerdict
   | ok | reject | buildErr | panic
 deriving DecidableEq, Repr
@@ -236,16 +261,18 @@ def mmcsVerify (perm : List K → List K) (pc : PermCfg) (digs : List (List K)) 
 
 /-- `verify_batch_circuit` / `verify_batch_circuit_from_extension_opened` followed by a run.
 `streams[m]` = base coefficients of matrix `m`'s opened row followed by its salt. -/
-def verifyCircuit2 (perm : List K → List K) (pc : PermCfg) (cap : List (List K)) (dims : List Dim)
+def verifyCircuit2 (chk : Checks) (perm : List K → List K) (pc : PermCfg) (cap : List (List K)) (dims : List Dim)
     (bits : List K) (streams : List (List K)) (sibs : List (List K)) : CVerdict × ExecSt K :=
   let st0 : ExecSt K := ExecSt.init
   if dims.length ≠ streams.length then (.buildErr, st0) else
+  if chk.widths && !widthsOk dims streams then (.buildErr, st0) else
+  if chk.heights && !heightsOk dims then (.buildErr, st0) else
   if cap.isEmpty then (.panic, st0) else
   match (if cap.length = 1 then some 0 else log2Strict? cap.length) with
   | none => (.panic, st0)
   | some capHeight =>
     let L := bits.length
-    if L < capHeight then (.panic, st0) else
+    if L < capHeight then (if chk.capBits then .buildErr else .panic, st0) else
     let pathDepth := L - capHeight
     let root := selectCapEntry cap (bits.drop pathDepth)
     match levelDigests perm pc L streams (List.range (pathDepth + 1)) (tallestFirst dims) st0 with
@@ -323,14 +350,16 @@ def heightsCompatible : List Nat → Bool
   | _ => true
 
 /-- `verify_batch_circuit_arity4` / `…_from_extension_opened_arity4` followed by a run. -/
-def verifyCircuit4 (perm : List K → List K) (pc : PermCfg) (cap : List (List K)) (dims : List Dim)
+def verifyCircuit4 (chk : Checks) (perm : List K → List K) (pc : PermCfg) (cap : List (List K)) (dims : List Dim)
     (bits : List K) (streams : List (List K)) (sibs : List (List K)) : CVerdict × ExecSt K :=
   let st0 : ExecSt K := ExecSt.init
   if dims.length ≠ streams.length then (.buildErr, st0) else
+  if chk.widths && !widthsOk dims streams then (.buildErr, st0) else
   if !pc.arity4 then (.buildErr, st0) else
   if cap.isEmpty then (.panic, st0) else
   let sorted := tallestFirst dims
   if !heightsCompatible (sorted.map (·.2.height)) then (.buildErr, st0) else
+  if chk.heights && !heightsOk dims then (.buildErr, st0) else
   let maxHeight := (sorted.headD (0, ⟨0, 0⟩)).2.height
   if maxHeight = 0 then (.buildErr, st0) else
   match (if cap.length = 1 then some 0 else log2Strict? cap.length) with
